@@ -7,9 +7,9 @@ import (
 	"math/rand/v2"
 	"net/http"
 	"os"
-	"strconv"
 	"runtime/debug"
 	"sort"
+	"strconv"
 	"strings"
 	"sync"
 	"time"
